@@ -21,15 +21,19 @@ type ProtoEvent struct {
 	Unit    string            `json:"unit,omitempty"`
 }
 
-func genProtoPlan(r *rand.Rand) *plan.Plan {
-	// The seeded scheduler is off here: C16's simulated dimension is the clock (hours of simulated time per
-	// run would cost ~20 s of wall time per simulated hour under the baton because of the 10 ms admission
-	// poll loop); goroutines run under synctest's fake clock only.
-	k := plan.Knobs{Sched: false, Procs: 2, PQS: &boolF}
+func genProtoPlan(r *rand.Rand, hours bool) *plan.Plan {
+	// Every run is under the seeded scheduler. One simulated hour costs ~20 s of wall time under the baton (the
+	// 10 ms admission poll loop), so the clock jumps between receipt, flush and query are minutes in most runs
+	// and hours only in one thorough run in twenty (hours=true).
+	scale := int64(1)
+	if hours {
+		scale = 60
+	}
+	k := plan.Knobs{Sched: true, Procs: []int{1, 2, 4}[r.IntN(3)], PQS: &boolF}
 	p := &plan.Plan{Knobs: k, Params: map[string]any{}}
 	inc := plan.Incarnation{Boot: "full", SchedSeed: r.Uint64()>>11 | 1}
 	// the fake clock is moved to a known, odd instant first
-	inc.Ops = append(inc.Ops, plan.Op{Kind: "advance", DurMs: int64(1000 + r.IntN(5_000_000))})
+	inc.Ops = append(inc.Ops, plan.Op{Kind: "advance", DurMs: int64(1000 + r.IntN(90_000))*scale})
 	protos := []string{"es_bulk", "es_doc", "hec", "loki"}
 	// short values that need JSON escapes (quote, backslash, newline, and the characters Go's encoder writes
 	// as \u00XX) next to plain and non-ASCII ones
@@ -137,12 +141,12 @@ func genProtoPlan(r *rand.Rand) *plan.Plan {
 		op.Args["events"] = ems
 		inc.Ops = append(inc.Ops, op)
 		if r.IntN(4) == 0 {
-			inc.Ops = append(inc.Ops, plan.Op{Kind: "advance", DurMs: int64(r.IntN(90_000))})
+			inc.Ops = append(inc.Ops, plan.Op{Kind: "advance", DurMs: int64(r.IntN(9_000)) * scale})
 		}
 	}
 	// clock jumps between receipt and flush, and between flush and query
-	inc.Ops = append(inc.Ops, plan.Op{Kind: "advance", DurMs: int64(3*3600_000 + r.IntN(3600_000))}, plan.Op{Kind: "flush"},
-		plan.Op{Kind: "advance", DurMs: int64(2*3600_000 + r.IntN(3600_000))},
+	inc.Ops = append(inc.Ops, plan.Op{Kind: "advance", DurMs: int64(3*60_000+r.IntN(60_000)) * scale}, plan.Op{Kind: "flush"},
+		plan.Op{Kind: "advance", DurMs: int64(2*60_000+r.IntN(60_000)) * scale},
 		plan.Op{Kind: "query", Index: "*", Text: "*", Start: 1, End: 1_900_000_000_000, Size: 1000, Args: map[string]any{"includeNulls": true}})
 	p.Incs = []plan.Incarnation{inc}
 	return p
@@ -265,14 +269,16 @@ func protoOracle(prop string, res *RunResult) []Violation {
 func init() {
 	register(&Check{
 		ID:    "C16",
+		// "accepted, so it is stored and found" is judged after the plan's final flush and clock advances
+		Pinned: func(op *plan.Op) bool { return op.Kind == "flush" || op.Kind == "advance" },
 		Level: "exploration",
-		Rule: "each case moves the fake clock to a seeded instant and delivers 4-13 logical events (string fields, a number, a message; with a carried time in one of the accepted units, or none) through the real HTTP routes of Elasticsearch bulk, Elasticsearch single-document, Splunk HEC and Loki push (JSON), with think times; then the clock jumps 3-4 h before the flush and 2-3 h before the query. Oracle: every accepted event is stored once with its fields and message under the protocol's documented mapping; stored time == carried time; == the simulated arrival instant iff none was carried. distinct = distinct (protocol, unit, carried) sequences; non-trivial = the run contains events with and without a carried time",
+		Rule: "each case moves the fake clock to a seeded instant and delivers 4-13 logical events (string fields, a number, a message; with a carried time in one of the accepted units, or none) through the real HTTP routes of Elasticsearch bulk, Elasticsearch single-document, Splunk HEC and Loki push (JSON), with think times, under the seeded scheduler; then the clock jumps 3-4 min before the flush and 2-3 min before the query (hours instead of minutes in one thorough run in twenty). Oracle: every accepted event is stored once with its fields and message under the protocol's documented mapping; stored time == carried time; == the simulated arrival instant iff none was carried. distinct = distinct (protocol, unit, carried) sequences; non-trivial = the run contains events with and without a carried time",
 		Run: func(c *Ctx) {
 			n := 80
 			if !c.Quick() {
 				n = 3000
 			}
-			c.Explore(n, func(r *rand.Rand, i int) *plan.Plan { return genProtoPlan(r) }, func(res *RunResult) (string, bool, any) {
+			c.Explore(n, func(r *rand.Rand, i int) *plan.Plan { return genProtoPlan(r, !c.Quick() && i%20 == 19) }, func(res *RunResult) (string, bool, any) {
 				var sb strings.Builder
 				carried, bare := false, false
 				for _, op := range res.Plan.Incs[0].Ops {
